@@ -373,20 +373,20 @@ Qed.
 (* ------------------------------------------------------------------ *)
 (* the scan of the children of a loop                                   *)
 
-Lemma wl_scan_nil ol cur pop : wl_scan m a ol cur pop [] = w_ret None.
+Lemma wl_scan_nil orig ol cur pop : wl_scan m a orig ol cur pop [] = w_ret None.
 Proof. reflexivity. Qed.
 
-Lemma wl_scan_loop ol cur pop i id ty nm u p rep pm rest :
-  wl_scan m a ol cur pop ((i, NLoop id ty nm u p rep pm) :: rest) =
+Lemma wl_scan_loop orig ol cur pop i id ty nm u p rep pm rest :
+  wl_scan m a orig ol cur pop ((i, NLoop id ty nm u p rep pm) :: rest) =
   (dow lm <- is_loop_match 40 m a (cur ++ [i]) (NLoop id ty nm u p rep pm);
    if lm then
      dow g <- goto_seg_match 40 m a (cur ++ [i]) (NLoop id ty nm u p rep pm);
      w_ret (Some (fst g, pop, snd g))
-   else wl_scan m a ol cur pop rest).
+   else wl_scan m a orig ol cur pop rest).
 Proof. reflexivity. Qed.
 
-Lemma wl_scan_seg ol cur pop i s0 rest :
-  wl_scan m a ol cur pop ((i, NSeg s0) :: rest) =
+Lemma wl_scan_seg orig ol cur pop i s0 rest :
+  wl_scan m a orig ol cur pop ((i, NSeg s0) :: rest) =
   (dow b <- w_lift (smatch s0);
    if b then
      dow lm <- (match cur with
@@ -394,6 +394,7 @@ Lemma wl_scan_seg ol cur pop i s0 rest :
                 | _ => dow n <- w_lift (get_node m cur); is_loop_match 40 m a cur n
                 end);
      if lm then
+       dow_ (if orig_is_segment m orig then note_missing_children m a cur else w_ret tt);
        dow n <- w_lift (get_node m cur);
        dow g <- goto_seg_match 40 m a cur n;
        dow same <- w_lift (node_eq m cur ol);
@@ -416,8 +417,8 @@ Lemma wl_scan_seg ol cur pop i s0 rest :
            then append_missing m (cur ++ [i]) (NSeg s0) (Walker.l "Mandatory segment """ ++ ostr0 (s_name s0) ++ Walker.l """ (" ++
                                        ostr0 (s_id s0) ++ Walker.l ") missing") a
            else w_ret tt);
-     wl_scan m a ol cur pop rest
-   else wl_scan m a ol cur pop rest).
+     wl_scan m a orig ol cur pop rest
+   else wl_scan m a orig ol cur pop rest).
 Proof. reflexivity. Qed.
 
 (* a child that is passed without a trace: it is not missing and the segment matches none of its heads *)
@@ -425,9 +426,9 @@ Definition child_quiet (c : counter) (cur : nref) (ic : nat * node) : Prop :=
   nth_error (kids m cur) (fst ic) = Some (snd ic) /\ cq 40 c (cur ++ [fst ic]) (snd ic) /\
   (forall h, In h (heads 40 (cur ++ [fst ic]) (snd ic)) -> nomatch h).
 
-Lemma scan_skip ol cur pop c ms lg pre rest :
+Lemma scan_skip orig ol cur pop c ms lg pre rest :
   lref m cur -> Forall (child_quiet c cur) pre ->
-  wl_scan m a ol cur pop (pre ++ rest) (St c ms lg) = wl_scan m a ol cur pop rest (St c ms lg).
+  wl_scan m a orig ol cur pop (pre ++ rest) (St c ms lg) = wl_scan m a orig ol cur pop rest (St c ms lg).
 Proof.
   intros Hl. induction pre as [|[i ch] pre IH]; intros Q; [reflexivity|].
   inversion Q as [|x xs [Hi [Qc Qm]] Q']; subst. cbn [fst snd] in *. specialize (IH Q').
@@ -447,20 +448,20 @@ Proof.
     rewrite bind_ret. exact IH.
 Qed.
 
-Lemma scan_quiet ol cur pop c ms lg cs :
+Lemma scan_quiet orig ol cur pop c ms lg cs :
   lref m cur -> Forall (child_quiet c cur) cs ->
-  wl_scan m a ol cur pop cs (St c ms lg) = (St c ms lg, Ok None).
+  wl_scan m a orig ol cur pop cs (St c ms lg) = (St c ms lg, Ok None).
 Proof.
-  intros Hl Q. rewrite <- (app_nil_r cs). rewrite (scan_skip _ _ _ _ _ _ _ _ Hl Q). reflexivity.
+  intros Hl Q. rewrite <- (app_nil_r cs). rewrite (scan_skip _ _ _ _ _ _ _ _ _ Hl Q). reflexivity.
 Qed.
 
 (* a matching segment child that does not open its own loop again is counted and returned *)
-Lemma scan_found_seg ol cur pop c lg j sn rest xp mx :
+Lemma scan_found_seg orig ol cur pop c lg j sn rest xp mx :
   lref m cur -> nth_error (kids m cur) j = Some (NSeg sn) -> smatch sn = Ok true ->
   (forall n, node_at ns cur = Some n -> is_loop_match 40 m a cur n (St c [] lg) = (St c [] lg, Ok false)) ->
   used (s_usage sn) = true -> node_x12path m (cur ++ [j]) = Ok xp -> seg_max_repeat sn = Ok mx ->
   (get_count (increment c xp) xp <= mx)%Z ->
-  wl_scan m a ol cur pop ((j, NSeg sn) :: rest) (St c [] lg) =
+  wl_scan m a orig ol cur pop ((j, NSeg sn) :: rest) (St c [] lg) =
   (St (increment c xp) [] lg, Ok (Some (Some (cur ++ [j]), pop, []))).
 Proof.
   intros Hl Hj M LM U X MX Le.
@@ -481,10 +482,10 @@ Proof.
 Qed.
 
 (* a loop child whose head matches is entered *)
-Lemma scan_found_loop ol cur pop c c2 lg j n z rest :
+Lemma scan_found_loop orig ol cur pop c c2 lg j n z rest :
   lref m cur -> nth_error (kids m cur) j = Some n -> echain c c2 z (cur ++ [j]) n ->
   exists push s1,
-    wl_scan m a ol cur pop ((j, n) :: rest) (St c [] lg) =
+    wl_scan m a orig ol cur pop ((j, n) :: rest) (St c [] lg) =
     (St c2 [] lg, Ok (Some (Some ((cur ++ [j]) ++ repeat 0 (S z)), pop, push))) /\
     node_at ns ((cur ++ [j]) ++ repeat 0 (S z)) = Some (NSeg s1).
 Proof.
@@ -500,19 +501,96 @@ Proof.
   rewrite (bind_eq _ _ _ _ _ G). reflexivity.
 Qed.
 
+(* _note_missing_children (Model/Walker.v), with its local function and its loop body named *)
+Definition nmc_try (ms0 : list mentry) (cr fr : nref) (nd : node) (msg : str) : W unit :=
+  dow xp <- w_lift (node_x12path m cr);
+  dow cn <- w_counter_get;
+  if negb (get_count cn xp <? 1)%Z then w_ret tt
+  else
+    dow pid <- w_lift (parent_id m fr);
+    if existsb (fun e => ostr_eqb (me_id e) (node_id nd) && ostr_eqb (me_pid e) pid) ms0 then w_ret tt
+    else append_missing m fr nd msg a.
+
+Definition nmc_step (cur : nref) (ms0 : list mentry) (ic : nat * node) : W unit :=
+  let cr := cur ++ [fst ic] in
+  let c := snd ic in
+  if negb (usage_is (node_usage c) "R") then w_ret tt
+  else
+    match c with
+    | NSeg s0 =>
+        nmc_try ms0 cr cr c (Walker.l "Mandatory segment """ ++ ostr0 (s_name s0) ++ Walker.l """ (" ++ ostr0 (s_id s0) ++ Walker.l ") missing")
+    | NLoop id _ name _ _ _ pm =>
+        match pm_nodes pm with
+        | (NSeg _ as first) :: _ =>
+            nmc_try ms0 cr (cr ++ [0]) first (Walker.l "Mandatory loop """ ++ ostr0 name ++ Walker.l """ (" ++ ostr0 id ++ Walker.l ") missing")
+        | _ => w_ret tt
+        end
+    end.
+
+Lemma note_missing_children_eq cur :
+  note_missing_children m a cur =
+  (dow kids <- w_lift (container_children m cur);
+   dow ms0 <- w_missing_get;
+   w_iter (nmc_step cur ms0) (enumerate 0 kids)).
+Proof. reflexivity. Qed.
+
+(* every child of the loop cur is present as far as it is required (nothing would be recorded as missing
+   for it): what _note_missing_children asks when cur starts again *)
+Definition allq (c : counter) (cur : nref) : Prop :=
+  forall k nk, nth_error (kids m cur) k = Some nk -> cq 40 c (cur ++ [k]) nk.
+
+Lemma nmc_step_quiet cur ms0 c ms lg i ch :
+  lref m cur -> nth_error (kids m cur) i = Some ch -> cq 40 c (cur ++ [i]) ch ->
+  nmc_step cur ms0 (i, ch) (St c ms lg) = (St c ms lg, Ok tt).
+Proof.
+  intros Hl Hi Q. unfold nmc_step. cbn [fst snd].
+  assert (Hcr : node_at ns (cur ++ [i]) = Some ch) by (rewrite (node_at_kids _ _ _ Hl); exact Hi).
+  destruct (usage_is (node_usage ch) "R") eqn:ER; cbn [negb]; [|reflexivity].
+  destruct ch as [id ty nm u p rep pm | s0].
+  - cbn [node_usage] in ER. cbn [cq] in Q.
+    destruct (pm_nodes pm) as [|[|sf] rest] eqn:E; [reflexivity | reflexivity |].
+    destruct (wf_loop_seg m WF _ _ _ _ _ _ _ _ _ _ Hcr E) as [_ N].
+    destruct (N (usage_R_not_N _ ER)) as [[xp Hxp] _].
+    unfold nmc_try. rewrite (bind_lift_ok _ _ _ _ Hxp), bind_cget.
+    specialize (Q ER). unfold cnt in Q. rewrite Hxp in Q.
+    replace (get_count c xp <? 1)%Z with false by (symmetry; apply Z.ltb_ge; lia). reflexivity.
+  - cbn [node_usage] in ER. cbn [cq] in Q.
+    destruct (wf_seg m WF _ _ Hcr) as [_ [[xp Hxp] _]].
+    unfold nmc_try. rewrite (bind_lift_ok _ _ _ _ Hxp), bind_cget.
+    specialize (Q ER). unfold cnt in Q. rewrite Hxp in Q.
+    replace (get_count c xp <? 1)%Z with false by (symmetry; apply Z.ltb_ge; lia). reflexivity.
+Qed.
+
+Lemma note_missing_quiet cur c ms lg :
+  lref m cur -> allq c cur -> note_missing_children m a cur (St c ms lg) = (St c ms lg, Ok tt).
+Proof.
+  intros Hl Q. rewrite note_missing_children_eq.
+  rewrite (bind_lift_ok _ _ _ _ (container_children_kids _ _ Hl)), bind_mget.
+  assert (G : forall cs, (forall i ch, In (i, ch) cs -> nth_error (kids m cur) i = Some ch) ->
+              w_iter (nmc_step cur ms) cs (St c ms lg) = (St c ms lg, Ok tt)).
+  { induction cs as [|[i ch] cs IH]; intros Hc; [reflexivity|].
+    cbn [w_iter]. rewrite (bind_eq _ _ _ _ _ (nmc_step_quiet cur ms c ms lg i ch Hl (Hc i ch (or_introl eq_refl))
+                                                (Q _ _ (Hc i ch (or_introl eq_refl))))).
+    apply IH. intros i' ch' Hin. apply Hc. right. exact Hin. }
+  apply G. intros i ch Hin. apply enumerate_nth in Hin as [_ Hin]. rewrite Nat.sub_0_r in Hin. exact Hin.
+Qed.
+
 (* the first segment of the loop being scanned matches: the loop is entered again *)
-Lemma scan_found_restart ol cur pop c c2 lg n s0 rest no :
+Lemma scan_found_restart orig ol cur pop c c2 lg n s0 rest no so :
   cur <> [] -> node_at ns cur = Some n -> nth_error (kids m cur) 0 = Some (NSeg s0) ->
   node_at ns ol = Some no ->
+  node_at ns orig = Some (NSeg so) -> allq c cur ->
   echain c c2 0 cur n ->
   exists pop' push,
-    wl_scan m a ol cur pop ((0, NSeg s0) :: rest) (St c [] lg) =
+    wl_scan m a orig ol cur pop ((0, NSeg s0) :: rest) (St c [] lg) =
     (St c2 [] lg, Ok (Some (Some (cur ++ [0]), pop', push))).
 Proof.
-  intros Hne Hn H0 Hol EC.
+  intros Hne Hn H0 Hol Hor AQ EC.
   pose proof (echain_loop _ _ _ _ _ EC) as Ln.
   destruct (wf_ref _ _ _ WF Hn) as [_ D].
   destruct (goto_hit _ _ _ _ _ EC 40 Hn D lg) as [push [s1 [G N1]]]. cbn [repeat] in G.
+  assert (OS : orig_is_segment m orig = true).
+  { unfold orig_is_segment. destruct orig; [discriminate Hor|]. rewrite Hor. reflexivity. }
   assert (M : smatch s0 = Ok true).
   { inversion EC as [r' n' EO|]; subst. destruct n as [id ty nm u p rep pm | sx]; [|destruct EO].
     destruct EO as [s0' [rest' [xC [x0 [mx [E [M _]]]]]]].
@@ -523,6 +601,7 @@ Proof.
   rewrite (list_case _ _ _ Hne).
   rewrite (bind_eq _ _ (St c [] lg) (St c [] lg) true).
   2:{ rewrite (bind_lift_ok _ _ _ _ (get_node_ok _ _ _ Hn)). apply (ilm_hit _ _ _ _ _ EC 40 D). }
+  rewrite OS. rewrite (bind_eq _ _ _ _ _ (note_missing_quiet cur c [] lg ltac:(right; eauto) AQ)).
   rewrite (bind_lift_ok _ _ _ _ (get_node_ok _ _ _ Hn)).
   rewrite (bind_eq _ _ _ _ _ G). rewrite (bind_lift_ok _ _ _ _ Hsame). cbn [fst snd].
   destruct same; eexists; eexists; reflexivity.
@@ -537,7 +616,7 @@ Proof. reflexivity. Qed.
 
 Lemma walk_loop_found f orig ol cur npos pop s s' res :
   lref m cur ->
-  wl_scan m a ol cur pop (cands m cur npos) s = (s', Ok (Some res)) ->
+  wl_scan m a orig ol cur pop (cands m cur npos) s = (s', Ok (Some res)) ->
   walk_loop (S f) m a orig ol cur npos pop s = (s', Ok res).
 Proof.
   intros Hl H. rewrite walk_loop_S. rewrite (bind_lift_ok _ _ _ _ (container_children_kids _ _ Hl)).
@@ -552,7 +631,7 @@ Lemma walk_loop_pop f orig ol cur npos pop c ms lg n :
 Proof.
   intros Hne Hn Ln Q. assert (Hl : lref m cur) by (right; eauto).
   rewrite walk_loop_S. rewrite (bind_lift_ok _ _ _ _ (container_children_kids _ _ Hl)).
-  rewrite <- cands_kids. rewrite (bind_eq _ _ _ _ _ (scan_quiet _ _ _ _ _ _ _ Hl Q)).
+  rewrite <- cands_kids. rewrite (bind_eq _ _ _ _ _ (scan_quiet _ _ _ _ _ _ _ _ Hl Q)).
   rewrite (list_case _ _ _ Hne). rewrite (bind_lift_ok _ _ _ _ (get_node_ok _ _ _ Hn)). reflexivity.
 Qed.
 
@@ -632,7 +711,7 @@ Proof.
   intros Hl Hj Hp Q M LM U X MX Le f pop.
   destruct (cands_split L npos j (NSeg sn) Hj Hp) as [pre [rest [E Hpre]]].
   apply walk_loop_found; [exact Hl|]. rewrite E.
-  rewrite (scan_skip ol L pop c [] lg pre _ Hl).
+  rewrite (scan_skip orig ol L pop c [] lg pre _ Hl).
   - apply scan_found_seg with (mx := mx); assumption.
   - apply Forall_forall. intros ic Hin. destruct (Hpre ic Hin) as [H1 H2]. apply Q; assumption.
 Qed.
@@ -648,26 +727,26 @@ Lemma found_loop_at orig ol L npos c c2 lg j n z :
 Proof.
   intros Hl Hj Hp Q EC f pop.
   destruct (cands_split L npos j n Hj Hp) as [pre [rest [E Hpre]]].
-  destruct (scan_found_loop ol L pop c c2 lg j n z rest Hl Hj EC) as [push [s1 [G N1]]].
+  destruct (scan_found_loop orig ol L pop c c2 lg j n z rest Hl Hj EC) as [push [s1 [G N1]]].
   exists push, s1. split; [|exact N1].
   apply walk_loop_found; [exact Hl|]. rewrite E.
-  rewrite (scan_skip ol L pop c [] lg pre _ Hl); [exact G|].
+  rewrite (scan_skip orig ol L pop c [] lg pre _ Hl); [exact G|].
   apply Forall_forall. intros ic Hin. destruct (Hpre ic Hin) as [H1 H2]. apply Q; assumption.
 Qed.
 
-Lemma found_restart_at orig ol C npos c c2 lg n s0 rest no :
+Lemma found_restart_at orig ol C npos c c2 lg n s0 rest no so :
   C <> [] -> node_at ns C = Some n -> cands m C npos = (0, NSeg s0) :: rest ->
-  node_at ns ol = Some no -> echain c c2 0 C n ->
+  node_at ns ol = Some no -> node_at ns orig = Some (NSeg so) -> allq c C -> echain c c2 0 C n ->
   forall f pop, exists pop' push,
     walk_loop (S f) m a orig ol C npos pop (St c [] lg) =
     (St c2 [] lg, Ok (Some (C ++ [0]), pop', push)).
 Proof.
-  intros Hne Hn E Hol EC f pop.
+  intros Hne Hn E Hol Hor AQ EC f pop.
   assert (Hl : lref m C) by (right; exists n; split; [exact Hn | apply (echain_loop _ _ _ _ _ EC)]).
   assert (H0 : nth_error (kids m C) 0 = Some (NSeg s0)).
   { assert (Hin : In (0, NSeg s0) (cands m C npos)) by (rewrite E; left; reflexivity).
     rewrite cands_kids in Hin. apply filter_In in Hin as [Hin _]. apply enumerate_nth in Hin as [_ Hin]. exact Hin. }
-  destruct (scan_found_restart ol C pop c c2 lg n s0 rest no Hne Hn H0 Hol EC) as [pop' [push G]].
+  destruct (scan_found_restart orig ol C pop c c2 lg n s0 rest no so Hne Hn H0 Hol Hor AQ EC) as [pop' [push G]].
   exists pop', push. apply walk_loop_found; [exact Hl|]. rewrite E. exact G.
 Qed.
 
